@@ -228,6 +228,10 @@ class Sim(object):
             app = Application(slash_mode=mode, resources={'clash': 'c'} if clash else {}, middlewares=[tracer(mwid)] if mwid else [],
                               render_factory=Fac(fac) if fac else None)
             self.apps.append({'app': app, 'table': [], 'mode': mode, 'clash': clash, 'requested': False, 'failed_add': False, 'mw': mwid, 'fac': fac})
+            # mount points declared right away, while the application is still empty: embedding one of them later embeds the
+            # application as it is *then*
+            from clastic import SubApplication
+            self.apps[-1]['mounts'] = dict((p_, SubApplication(p_, app)) for p_ in PREFIXES)
         elif k == 'new_route':
             _, pattern, methods, beh = op[:4]
             needs = bool(op[4]) if len(op) > 4 else False
@@ -333,12 +337,19 @@ class Sim(object):
             else:
                 ctx.mismatch('failing-add-accepted', 'add() of a %s entry did not raise' % kind)
         elif k == 'embed':
-            _, src, dst, prefix, index = op
+            _, src, dst, prefix, index = op[:5]
+            via = op[5] if len(op) > 5 else 'tuple'
             a, b = src % len(self.apps), dst % len(self.apps)
             if a == b:
                 return
             index = self.idx(b, index)
             entry = (prefix, self.apps[a]['app'])
+            if via == 'early-sub':
+                entry = self.apps[a]['mounts'][prefix]
+                ctx.event('embed-via-early-subapplication')
+            elif via == 'fresh-sub':
+                from clastic import SubApplication
+                entry = SubApplication(prefix, self.apps[a]['app'])
             if self.apps[b]['clash'] and any(any(e[0] == 'b' and e[1] == 'clash' for e in t.parsed[0]) for t in self.apps[a]['table']):
                 return
             if not self.apps[b]['clash'] and self.apps[a]['clash'] is False and False:
@@ -445,9 +456,10 @@ def machine():
         def add_failing(self, ai, kind, index):
             self.do(['add_failing', ai, kind, index])
 
-        @rule(src=st.integers(0, 3), dst=st.integers(0, 3), prefix=st.sampled_from(PREFIXES), index=index)
-        def embed(self, src, dst, prefix, index):
-            self.do(['embed', src, dst, prefix, index])
+        @rule(src=st.integers(0, 3), dst=st.integers(0, 3), prefix=st.sampled_from(PREFIXES), index=index,
+              via=st.sampled_from(['tuple', 'early-sub', 'early-sub', 'fresh-sub']))
+        def embed(self, src, dst, prefix, index, via):
+            self.do(['embed', src, dst, prefix, index, via])
 
         @rule(dst=st.integers(0, 3), prefix=st.sampled_from(PREFIXES), n_good=st.integers(0, 3), kpos=st.integers(0, 3), index=index)
         def embed_failing(self, dst, prefix, n_good, kpos, index):
